@@ -71,6 +71,8 @@ DoCall(c) ==
     [] op = "Register"     -> Register(c, Ev.k)
     [] op = "SerializeId"  -> IF CanSerializeId(c) THEN SerializeId(c) ELSE FALSE
     [] op = "ContinueTask" -> IF CanContinue(c, Ev.i) THEN ContinueTask(c, Ev.i) ELSE FALSE
+    [] op = "Preserve"     -> IF CanPreserve(c) THEN Preserve(c) ELSE FALSE
+    [] op = "CallPreserved" -> IF CanCallPreserved(c, Ev.i) THEN CallPreserved(c, Ev.i) ELSE FALSE
     [] op = "Spawn"        -> Spawn(c, Ev.c2, Ev.kind)
     [] op = "AddDests"     -> AddDests(c, ToSet(Ev.S))
     [] op = "RemoveDest"   -> RemoveDest(c, Ev.d)
@@ -87,6 +89,8 @@ WellFormedCall(c) ==
        [] op = "ActionLog" -> CanActionLog(c, Ev.a)
        [] op = "SerializeId" -> CanSerializeId(c)
        [] op = "ContinueTask" -> CanContinue(c, Ev.i)
+       [] op = "Preserve" -> CanPreserve(c)
+       [] op = "CallPreserved" -> CanCallPreserved(c, Ev.i)
        [] op = "AddSuccess" -> Ev.a \in DOMAIN acts /\ ~acts[Ev.a].fin /\ Ev.f \notin acts[Ev.a].succ
        [] op = "Spawn" -> ~born[Ev.c2]
        [] op = "AddDests" -> ToSet(Ev.S) # {} /\ ToSet(Ev.S) \cap Range(dests) = {}
@@ -126,9 +130,9 @@ MsgClause(m) ==          \* "" when the offered message is the predicted one
   ELSE ""
 TDeliver ==
   /\ Live /\ ~SilentEnabled /\ Ev.e = "deliver"
-  /\ IF ~CanDeliver THEN Flag("unexpected_delivery:" \o Ev.m.kind)
+  /\ IF ~CanDeliver THEN Flag("unexpected_delivery:" \o Ev.m.kind \o ":" \o lastop)
      ELSE IF Ev.d \notin Range(Pending(Top)) THEN Flag("duplicate_delivery:" \o KindOf(Top.m))
-     ELSE IF MsgClause(Top.m) # "" THEN Flag(MsgClause(Top.m) \o ":" \o KindOf(Top.m))
+     ELSE IF MsgClause(Top.m) # "" THEN Flag(MsgClause(Top.m) \o ":" \o KindOf(Top.m) \o ":" \o lastop)
      ELSE /\ (IF Ev.abort THEN DeliverAbort(Ev.d) ELSE Deliver(Ev.d, Ev.raised)) /\ Step /\ UNCHANGED lastop
           /\ umap' = IF Top.m.u \in DOMAIN umap THEN umap ELSE (Top.m.u :> Ev.m.u) @@ umap
 
